@@ -185,7 +185,7 @@ Definition api_mismatches (cases : list api_case) : list nat :=
   find_idx (fun c => negb (api_model_ok c)) cases 0.
 
 (* oracle state of one SSRC: recount state + how often each unwrapped number was requested *)
-Record ost := mk_ost { o_s : option sst; o_req : list (Z * Z) }.
+Record ost := mk_ost { o_s : option sst; o_req : list (Z * Z); o_hist : list Z }.
 
 Fixpoint aget {A} (l : list (Z * A)) (k : Z) : option A :=
   match l with
@@ -203,31 +203,30 @@ Definition adel {A} (l : list (Z * A)) (k : Z) : list (Z * A) := filter (fun kv 
 
 Definition rget (r : list (Z * Z)) (u : Z) : Z := match aget r u with Some v => v | None => 0 end.
 
-(* is some other number congruent to u (mod 2^16) recorded as requested? *)
-Definition alias_requested (r : list (Z * Z)) (u : Z) : bool :=
-  existsb (fun kv => negb (fst kv =? u) && ((fst kv - u) mod 65536 =? 0) && (snd kv >? 0)) r.
-
 (* one stream at one tick: q = what the implementation requested (list, [] if no packet).
-   Returns (code, updated request counts). *)
-Definition stream_tick_code (sz skip mx : Z) (o : ost) (q : list Z) : nat * list (Z * Z) :=
+   Returns (code, updated request counts, numbers requested now).  The counts are kept only for
+   numbers that are still missing (a number that left the missing set never returns to it);
+   everything ever requested goes to the history list used to recognise code 11. *)
+Definition stream_tick_code (sz skip mx : Z) (o : ost) (q : list Z) : nat * list (Z * Z) * list Z :=
   let mu := match o_s o with Some s => spec_missing_u sz skip s | None => [] end in
   let eu := if mx >? 0 then filter (fun u => rget (o_req o) u <? mx) mu else mu in
   let e := map u16 eu in
-  let req' := fold_left (fun r u => if memz (u16 u) q then aset r u (rget r u + 1) else r) mu (o_req o) in
-  let code :=
-    if list_eqb Z.eqb e q then 0%nat
-    else
+  if list_eqb Z.eqb e q then
+    (0%nat, (if mx >? 0 then map (fun u => (u, rget (o_req o) u + (if rget (o_req o) u <? mx then 1 else 0))) mu else []), eu)
+  else
+    let code :=
       match filter (fun x => negb (memz x e)) q with
       | x :: _ =>
           if memz x (map u16 mu) then 6%nat      (* missing, but already requested mx times *)
           else classify_extra sz skip (o_s o) x
       | [] =>
           match filter (fun u => negb (memz (u16 u) q)) eu with
-          | u :: _ => if mx >? 0 then (if alias_requested (o_req o) u then 11%nat else 7%nat) else 4%nat
+          | u :: _ => if mx >? 0 then (if existsb (fun h => negb (h =? u) && ((h - u) mod 65536 =? 0)) (o_hist o)
+                                       then 11%nat else 7%nat) else 4%nat
           | [] => 5%nat
           end
       end in
-  (code, req').
+    (code, o_req o, []).
 
 Fixpoint sorted_keys (l : list (Z * list Z)) : bool :=
   match l with
@@ -243,9 +242,9 @@ Fixpoint tick_code (sz skip mx : Z) (st : list (Z * ost)) (out : tick_out) : nat
   | [] => (0%nat, [])
   | (k, o) :: tl =>
       let q := match aget out k with Some q => q | None => [] end in
-      let '(c1, r') := stream_tick_code sz skip mx o q in
+      let '(c1, r', now) := stream_tick_code sz skip mx o q in
       let '(c2, tl') := tick_code sz skip mx tl out in
-      ((match c1 with O => c2 | _ => c1 end), (k, mk_ost (o_s o) r') :: tl')
+      ((match c1 with O => c2 | _ => c1 end), (k, mk_ost (o_s o) r' (now ++ o_hist o)) :: tl')
   end.
 
 Fixpoint api_spec_code (sz skip mx : Z) (st : list (Z * ost)) (ops : list (Z * Z * Z * Z))
@@ -255,7 +254,7 @@ Fixpoint api_spec_code (sz skip mx : Z) (st : list (Z * ost)) (ops : list (Z * Z
   | (k, a, b, v) :: tl =>
       if k =? 0 then
         match aget st a with
-        | Some o => api_spec_code sz skip mx (aset st a (mk_ost (s_add (o_s o) b) (o_req o))) tl outs
+        | Some o => api_spec_code sz skip mx (aset st a (mk_ost (s_add (o_s o) b) (o_req o) (o_hist o))) tl outs
         | None => api_spec_code sz skip mx st tl outs
         end
       else if k =? 1 then api_spec_code sz skip mx st tl outs
@@ -273,7 +272,7 @@ Fixpoint api_spec_code (sz skip mx : Z) (st : list (Z * ost)) (ops : list (Z * Z
               end
         end
       else if k =? 3 then api_spec_code sz skip mx (adel st a) tl outs
-      else if k =? 4 then api_spec_code sz skip mx (aset st a (mk_ost None [])) tl outs
+      else if k =? 4 then api_spec_code sz skip mx (aset st a (mk_ost None [] [])) tl outs
       else if k =? 5 then api_spec_code sz skip mx st tl outs
       else
         (* injected counter: the number b (16-bit) of stream a counts as requested v times *)
@@ -282,7 +281,7 @@ Fixpoint api_spec_code (sz skip mx : Z) (st : list (Z * ost)) (ops : list (Z * Z
             match o_s o with
             | Some s =>
                 let u := s_hi s - (s_hi s - b) mod 65536 in
-                api_spec_code sz skip mx (aset st a (mk_ost (o_s o) (aset (o_req o) u v))) tl outs
+                api_spec_code sz skip mx (aset st a (mk_ost (o_s o) (aset (o_req o) u v) (o_hist o))) tl outs
             | None => api_spec_code sz skip mx st tl outs
             end
         | None => api_spec_code sz skip mx st tl outs
